@@ -409,9 +409,25 @@ def rule_d(ctx):
             start = hdr_pos
             final = to_lin(offs[-1].data['value'].term, atoms)
             lpos = len_read[0].pos
-            consumed_hdr = lpos - start  # what the header parser reported
-            if len(consumed_hdr.coef) > 1 or any(c != 1 for c in consumed_hdr.coef.values()) and consumed_hdr.coef:
-                pass
+            consumed_hdr = lpos - start  # must be what the header parser reported as consumed
+            reported = None
+            depth0 = None
+            for e in p.events:
+                if e.seq > back[0].seq:
+                    break
+                if e.kind == 'enter' and e.data['callee'].name == 'parse_well_known_encoding':
+                    depth0 = e.depth
+                if e.kind == 'return' and depth0 is not None and e.depth == depth0 + 1 and reported is None:
+                    rv = strip_epoch(e.data['value'].term) if e.data.get('value') is not None else None
+                    if rv is not None and rv[0] == 'tuple' and len(rv[1]) == 2:
+                        try:
+                            reported = to_lin(rv[1][1], atoms)
+                        except LayoutError:
+                            reported = None
+            if reported is None or consumed_hdr != reported:
+                ok, detail = False, ('the 24-bit length is read %r bytes after the header started, the header parser '
+                                     'consumed %r' % (consumed_hdr, reported))
+                continue
             if content.pos != lpos + 3:
                 ok, detail = False, 'the content is read at %r, the 24-bit length ended at %r' % (content.pos, lpos + 3)
                 continue
@@ -430,6 +446,200 @@ def rule_d(ctx):
     rep.add('C18.d', 'CompositeMetadata.parse / header, 24-bit length, content at contiguous positions', par, ok,
             detail or 'header at the cursor, length right after it, content right after the length, cursor advanced '
                       'by the content (%d iteration paths)' % n)
+
+
+def rule_entries(ctx):
+    """What the composite reader does with each entry: an item of the class registered for the entry's encoding is
+    created, told its encoding, given exactly the content slice to parse, and appended to the result once; `append` /
+    `extend` really add to the list the writer iterates."""
+    rep = ctx.report
+    cm = ctx.repo.cls('rsocket.extensions.composite_metadata:CompositeMetadata')
+    par = cm.lookup('parse')
+    ok = True
+    why = ''
+    n = 0
+    for p in ctx.paths(par, cm, stable_attrs=True,
+                       no_inline={'parse_well_known_encoding', 'metadata_item_factory', 'append', 'unpack_24bit'},
+                       inline_filter=lambda g: g.name != 'parse' or g is par):
+        back = [e for e in p.events if e.kind == 'loop' and e.data.get('phase') == 'back']
+        if not back:
+            continue
+        n += 1
+        it = [e for e in p.events if e.seq < back[0].seq]
+        hdr = [e for e in it if e.kind == 'call' and e.data.get('name') == 'parse_well_known_encoding']
+        fac = [e for e in it if e.kind == 'call' and e.data.get('name') == 'metadata_item_factory']
+        prs = [e for e in it if e.kind == 'call' and e.data.get('name') == 'parse' and e.data.get('recv') is not None]
+        app = [e for e in it if e.kind == 'call' and e.data.get('name') in ('append', 'extend') and
+               e.data.get('recv') is not None and strip_epoch(e.data['recv'].term) == ('self',)]
+        lens = [e for e in it if e.kind == 'call' and e.data.get('name') == 'unpack_24bit']
+        if len(hdr) != 1 or len(fac) != 1 or len(prs) != 1 or len(app) != 1 or len(lens) != 1:
+            ok, why = False, ('an entry is not turned into exactly one item (header %d, factory %d, item.parse %d, '
+                              'append %d)' % (len(hdr), len(fac), len(prs), len(app)))
+            continue
+        enc = ('unpack', strip_epoch(hdr[0].data['value'].term), 0)
+        if [strip_epoch(a.term) for a in fac[0].data['args']] != [enc]:
+            ok, why = False, 'the item class is not chosen by the encoding read from the entry header'
+        item = strip_epoch(prs[0].data['recv'].term)
+        made = [strip_epoch(e.data['value'].term) for e in it if e.kind == 'call' and
+                e.data['callee'].get('value') is not None and
+                strip_epoch(e.data['callee']['value'].term) == strip_epoch(fac[0].data['value'].term)]
+        if item not in made and strip_epoch(fac[0].data['value'].term) not in _flat18(item):
+            ok, why = False, 'the object that parses the content is not the item created for this entry'
+        st = [e for e in it if e.kind == 'store' and e.data['target'][0] == 'attr' and
+              e.data['target'][2] == 'encoding' and strip_epoch(e.data['target'][1]) == item]
+        if not st or strip_epoch(st[-1].data['value'].term) != enc:
+            ok, why = False, 'the item is not told the encoding of its entry'
+        content = strip_epoch(prs[0].data['args'][0].term) if prs[0].data.get('args') else None
+        ln = strip_epoch(lens[0].data['value'].term)
+        if not (content and content[0] == 'item' and content[2][0] == 'slice' and ln in _flat18(content[2][2])):
+            ok, why = False, 'the item does not parse the slice delimited by the 24-bit length'
+        if [strip_epoch(a.term) for a in app[0].data['args']] != [item]:
+            ok, why = False, 'what is appended to the result is not the item parsed from the entry'
+    rep.add('C18.g', 'CompositeMetadata.parse / every entry becomes one item of its encoding, appended once', par,
+            ok and n > 0, why or 'factory(encoding)() -> .encoding -> .parse(content) -> append (%d iteration paths)' % n)
+    for name in ('append', 'extend'):
+        f = cm.lookup(name)
+        okk = f is not None
+        if f is not None:
+            okk = False
+            for p in ctx.paths(f, cm, inline_depth=0):
+                if p.outcome != 'return':
+                    continue
+                adds = [e for e in p.events if e.kind == 'call' and e.data.get('name') == name and
+                        e.data.get('recv') is not None and strip_epoch(e.data['recv'].term) == ('attr', ('self',),
+                                                                                                 'items')]
+                okk = len(adds) == 1 and [strip_epoch(a.term)[0] for a in adds[0].data['args']] in (['param'],
+                                                                                                    ['starred'],
+                                                                                                    ['vararg'])
+                if not okk and len(adds) == 1:
+                    okk = 'param' in repr([a.term for a in adds[0].data['args']])
+        rep.add('C18.g', 'CompositeMetadata.%s / adds to the item list' % name, f or cm, okk,
+                'self.items.%s(argument)' % name if okk else 'the item list the writer iterates is not extended')
+
+
+def rule_h(ctx):
+    """Data-MIME / accept-MIME items and the authentication item: the writer emits one encoded header per encoding (the
+    authentication item: header of its type, then the authentication's own bytes), the reader stores what the header
+    parser returns and, for the list, advances by what it consumed."""
+    rep = ctx.report
+    one = ctx.repo.cls('rsocket.extensions.stream_data_mimetype:StreamDataMimetype')
+    many = ctx.repo.cls('rsocket.extensions.stream_data_mimetype:StreamDataMimetypes')
+    ac = ctx.repo.cls('rsocket.extensions.authentication_content:AuthenticationContent')
+    # --- single
+    f = one.lookup('serialize')
+    ok = False
+    for p in ctx.paths(f, one, inline_depth=0):
+        if p.outcome != 'return':
+            continue
+        calls = [e for e in p.events if e.kind == 'call' and e.data.get('name') == 'serialize_well_known_encoding']
+        ok = len(calls) == 1 and strip_epoch(calls[0].data['args'][0].term) == ('attr', ('self',), 'data_encoding') \
+            and 'get_by_name' in repr(calls[0].data['args'][1].term) and \
+            strip_epoch(p.value.term) == strip_epoch(calls[0].data['value'].term)
+    rep.add('C18.h', 'StreamDataMimetype.serialize / the encoded header of its encoding', f, ok,
+            'serialize_well_known_encoding(self.data_encoding, get_by_name)' if ok else
+            'the item is not serialized as the encoded header of its data encoding')
+    f = one.lookup('parse')
+    ok = False
+    for p in ctx.paths(f, one, inline_depth=0):
+        if p.outcome != 'return':
+            continue
+        calls = [e for e in p.events if e.kind == 'call' and e.data.get('name') == 'parse_well_known_encoding']
+        st = [e for e in p.events if e.kind == 'store' and e.data['target'][0] == 'attr' and
+              e.data['target'][2] == 'data_encoding']
+        ok = len(calls) == 1 and strip_epoch(calls[0].data['args'][0].term) == ('param', f.qualname, 'buffer') and \
+            'require_by_id' in repr(calls[0].data['args'][1].term) and len(st) == 1 and \
+            strip_epoch(st[0].data['value'].term) == ('unpack', strip_epoch(calls[0].data['value'].term), 0)
+    rep.add('C18.h', 'StreamDataMimetype.parse / stores the decoded encoding', f, ok,
+            'data_encoding = parse_well_known_encoding(buffer, require_by_id)[0]' if ok else
+            'the decoded encoding is not what is stored')
+    # --- list
+    f = many.lookup('serialize')
+    ok = True
+    n = 0
+    for p in ctx.paths(f, many, inline_depth=0):
+        if p.outcome != 'return' or not any(e.kind == 'loop' and e.data.get('phase') == 'back' for e in p.events):
+            continue
+        n += 1
+        ems = accumulated_emits(p, Atoms(), opaque_calls=True)
+        if ems is None or len(ems) != 1 or ems[0].kind != 'bytes':
+            ok = False
+            continue
+        src = strip_epoch(ems[0].src)
+        if not (src[0] == 'call' and src[1] == 'serialize_well_known_encoding' and
+                strip_epoch(src[2][0])[0] == 'elem' and 'data_encodings' in repr(src[2][0]) and
+                'get_by_name' in repr(src[2][1])):
+            ok = False
+    rep.add('C18.h', 'StreamDataMimetypes.serialize / one encoded header per encoding, in order', f, ok and n > 0,
+            'serialized += serialize_well_known_encoding(encoding, get_by_name) per element' if ok and n else
+            'an encoding of the list is not written as exactly one encoded header')
+    f = many.lookup('parse')
+    buf = ('param', f.qualname, 'buffer')
+    ok = True
+    why = ''
+    n = 0
+    for p in ctx.paths(f, many, inline_depth=0, symbolic_compare=True):
+        back = [e for e in p.events if e.kind == 'loop' and e.data.get('phase') == 'back']
+        if not back:
+            continue
+        n += 1
+        it = [e for e in p.events if e.seq < back[0].seq]
+        calls = [e for e in it if e.kind == 'call' and e.data.get('name') == 'parse_well_known_encoding']
+        apps = [e for e in it if e.kind == 'call' and e.data.get('name') == 'append']
+        offs = [e for e in it if e.kind == 'store' and e.data['target'][0] == 'local' and e.data.get('aug') == 'Add']
+        if len(calls) != 1 or len(apps) != 1 or len(offs) != 1:
+            ok, why = False, 'an iteration does not decode one header, append one encoding and advance once'
+            continue
+        cv = strip_epoch(calls[0].data['value'].term)
+        a0 = strip_epoch(calls[0].data['args'][0].term)
+        if not (a0[0] == 'item' and a0[2][0] == 'slice' and strip_epoch(a0[1]) == buf and
+                a0[2][2] == ('const', None)):
+            ok, why = False, 'the header is not decoded from the rest of the buffer at the cursor'
+        if [strip_epoch(a.term) for a in apps[0].data['args']] != [('unpack', cv, 0)]:
+            ok, why = False, 'what is appended is not the decoded encoding'
+        ov = strip_epoch(offs[0].data['value'].term)
+        if not (ov[0] == 'op' and ov[1] == 'Add' and strip_epoch(ov[3]) == ('unpack', cv, 1) and
+                strip_epoch(ov[2]) == strip_epoch(a0[2][1])):
+            ok, why = False, 'the cursor does not advance by what the header parser consumed'
+    rep.add('C18.h', 'StreamDataMimetypes.parse / each header decoded at the cursor, appended, cursor advanced', f,
+            ok and n > 0, why or 'parse_well_known_encoding(buffer[offset:]) -> append, offset += consumed')
+    # --- authentication item writer
+    f = ac.lookup('serialize')
+    ok = True
+    n = 0
+    for p in ctx.paths(f, ac, inline_depth=0):
+        if p.outcome != 'return':
+            continue
+        n += 1
+        ems = []
+        try:
+            got = accumulated_emits(p, Atoms(), opaque_calls=True)
+            if got is None:
+                lower_bytes_expr(p.value.term, ems, Atoms(), opaque_calls=True)
+            else:
+                ems = got
+        except LayoutError:
+            ok = False
+            continue
+        srcs = [strip_epoch(e.src) for e in ems]
+        good = len(srcs) == 2 and srcs[0][0] == 'call' and srcs[0][1] == 'serialize_well_known_encoding' and \
+            'authentication' in repr(srcs[0][2][0]) and 'type' in repr(srcs[0][2][0]) and \
+            'get_by_name' in repr(srcs[0][2][1]) and srcs[1][0] == 'call' and srcs[1][1] == 'serialize' and \
+            any(e.kind == 'call' and strip_epoch(e.data['value'].term) == srcs[1] and e.data.get('recv') is not None
+                and strip_epoch(e.data['recv'].term) == ('attr', ('self',), 'authentication') for e in p.events)
+        if not good:
+            ok = False
+    rep.add('C18.h', 'AuthenticationContent.serialize / type header, then the authentication bytes', f, ok and n > 0,
+            'serialize_well_known_encoding(authentication.type) + authentication.serialize()' if ok and n else
+            'the authentication item is not its type header followed by the authentication\'s own bytes')
+
+
+def _flat18(t):
+    out = []
+    if isinstance(t, tuple):
+        out.append(t)
+        for x in t:
+            out.extend(_flat18(x))
+    return out
 
 
 def rule_e(ctx):
@@ -522,6 +732,25 @@ def rule_f(ctx):
             ok, detail = False, 'the tag is read at %r, its length byte was at %r' % (tag.pos, ln[0].pos)
         elif tag.width != to_lin(ln[1], atoms):
             ok, detail = False, 'the tag slice is %r wide, the length byte says %r' % (tag.width, to_lin(ln[1], atoms))
+        else:
+            # the next iteration starts right after the tag: the cursor (the local the length byte was read at) has
+            # advanced by 1 + tag length when the loop goes round
+            cur = None
+            for e in p.events:
+                if e.seq > back[0].seq:
+                    break
+                if e.kind == 'store' and e.data['target'][0] == 'local':
+                    try:
+                        v = to_lin(e.data['value'].term, atoms)
+                    except LayoutError:
+                        continue
+                    if e.data.get('aug') or v.const or v.coef:
+                        cur = (e.data['target'][1], v) if isinstance(e.data['target'][1], str) else (
+                            e.data['target'][1][0], v)
+            want = ln[0].pos + 1 + to_lin(ln[1], atoms)
+            if cur is None or cur[1] != want:
+                ok, detail = False, ('after a tag the cursor is at %r, the tag ended at %r: the next length byte is '
+                                     'read from inside (or beyond) the tag' % (cur[1] if cur else None, want))
     rep.add('C18.f', 'TaggingMetadata.parse / one length byte, then the tag', par, ok and n > 0,
             detail or 'length byte at the cursor, tag of that length right after it')
     ser = tg.lookup('_serialize_tags')
@@ -666,4 +895,4 @@ def rule_g(ctx):
 
 
 RULES = [('C18.a', rule_a), ('C18.b', rule_b), ('C18.c', rule_c), ('C18.d', rule_d), ('C18.e', rule_e),
-         ('C18.f', rule_f), ('C12.e', rule_g)]
+         ('C18.f', rule_f), ('C18.g', rule_entries), ('C18.h', rule_h), ('C12.e', rule_g)]
